@@ -559,7 +559,8 @@ Definition do_publish (sc : script) (s : sys) (c : nat) (v : chan) (mandatory : 
         let chk := if mandatory then
                      match c_errs v3 with
                      | e :: rest =>
-                       let v4 := if st_eqb (c_state v3) OPEN then with_errs v3 rest else v3 in
+                       let v4 := if st_eqb (c_state v3) OPEN || ekind_eqb (e_kind e) EMsg
+                                 then with_errs v3 rest else v3 in
                        (upd s3 c v4, v4, Some e)
                      | [] => (s3, v3, None)
                      end
